@@ -270,16 +270,17 @@ where
     }
 
     async fn try_run_fsync_task(&mut self) -> bool {
-        if self.fsync_task.as_ref().map_or(false, |task| !task.is_finished()) {
-            // Task is in progress. Avoid starting second one
-            return false;
-        }
-
-        complete_task(&mut self.fsync_task, "fsync_task").await;
-
+        // Previous task can be at its very end (it has already decided that there is nothing to sync), so the
+        // request must not be dropped: new task waits for the previous one and checks dirty bytes again
+        let previous_task = self.fsync_task.take();
 
         let inner = self.inner.clone();
         let task = tokio::spawn(async move {
+            if let Some(previous_task) = previous_task {
+                if let Err(err) = previous_task.await {
+                    error!("Unexpected JoinError on 'fsync_task' task: {:?}", err);
+                }
+            }
             if let Err(e) = inner.fsyncdata().await {
                 error!("failed to fsync data in {:?}: {:?}", inner.config().work_dir(), e);
             }
